@@ -94,6 +94,11 @@ type st struct {
 	parent int      // -1 for the original
 	snap   []string // snapshot model: content of the parent at clone time (references unexpanded)
 	own    []string // tokens appended to this statement itself; "\x00<j>" stands for statement j added with Add
+	// snapCase: what the original showed when this clone was taken ended in a Case / Default head. A Block
+	// appended to the clone before anything else then follows that head directly if the clone holds a copy of
+	// the items (no braces), and follows a wrapped statement if the clone is a view (braces): the braces of
+	// such a Block are written "\x01{" and "\x01}" in own and expanded per model.
+	snapCase bool
 }
 
 func render(s *jen.Statement) ([]string, error) {
@@ -177,6 +182,39 @@ func check(c Case) error {
 	// endsInCase: the statement's own last item is a Case group or the default keyword (then a Block appended
 	// next renders as a clause body, without braces); a fresh clone's only item is the statement it wraps
 	endsInCase := map[*jen.Statement]bool{}
+	hasOwn := map[*jen.Statement]bool{} // something was appended to the statement itself since it was created
+	var list []*st
+	entry := func(s *jen.Statement) *st {
+		for _, x := range list {
+			if x.s == s {
+				return x
+			}
+		}
+		return nil
+	}
+	// endsCase: the content of the statement, as a copy of all items would hold it, ends in a clause head
+	endsCase := func(x *st) bool {
+		if x == nil {
+			return false
+		}
+		if hasOwn[x.s] {
+			return endsInCase[x.s]
+		}
+		return x.parent >= 0 && x.snapCase
+	}
+	// braces of a Block appended to s now
+	braces := func(s *jen.Statement) (open, close []string) {
+		if hasOwn[s] {
+			if endsInCase[s] {
+				return nil, nil
+			}
+			return []string{"{"}, []string{"}"}
+		}
+		if x := entry(s); x != nil && x.parent >= 0 && x.snapCase {
+			return []string{"\x01{"}, []string{"\x01}"}
+		}
+		return []string{"{"}, []string{"}"}
+	}
 	var apply func(s *jen.Statement, via string, n int) []string
 	apply0 := func(s *jen.Statement, via string, n int) []string {
 		switch via {
@@ -189,12 +227,9 @@ func check(c Case) error {
 			return []string{"default", ":"}
 		case "blockafter":
 			a := next()
-			inCase := endsInCase[s]
+			open, close := braces(s)
 			s.Block(jen.Id(a))
-			if inCase {
-				return []string{a}
-			}
-			return []string{"{", a, "}"}
+			return append(append(open, a), close...)
 		}
 		return nil
 	}
@@ -264,11 +299,12 @@ func check(c Case) error {
 		}
 		if len(*s) != before {
 			endsInCase[s] = via == "casehead" || via == "defaulthead"
+			hasOwn[s] = true
 		}
 		return toks
 	}
 	orig := &jen.Statement{}
-	list := []*st{{s: orig, parent: -1}}
+	list = []*st{{s: orig, parent: -1}}
 	for i := 0; i < c.Init; i++ {
 		list[0].own = append(list[0].own, apply(orig, "id", 0)...)
 	}
@@ -290,9 +326,15 @@ func check(c Case) error {
 	}
 	// a reference renders as whatever the referenced statement renders now (observed in the same pass
 	// and itself judged against its own models)
-	expand := func(content []string, cur [][]string) string {
+	expand := func(content []string, cur [][]string, live bool) string {
 		var out []string
 		for _, t := range content {
+			if strings.HasPrefix(t, "\x01") {
+				if live {
+					out = append(out, t[1:])
+				}
+				continue
+			}
 			if strings.HasPrefix(t, "\x00") {
 				j := 0
 				fmt.Sscanf(t[1:], "%d", &j)
@@ -325,7 +367,7 @@ func check(c Case) error {
 	// for every clone of the history
 	liveOK, snapOK := true, true
 	judge := func(step int, what, where string, i int, g string, cur [][]string) error {
-		l, sn := expand(liveU(i), cur), expand(snapU(i), cur)
+		l, sn := expand(liveU(i), cur, true), expand(snapU(i), cur, false)
 		if g != l && g != sn {
 			return fmt.Errorf("step %d (%s): %s statement %d (parent %d) renders %q; want %q (clone is a view of its original) or %q (clone is a snapshot)", step, what, where, i, list[i].parent, g, l, sn)
 		}
@@ -418,7 +460,7 @@ func check(c Case) error {
 				return err
 			}
 			cl := list[i].s.Clone()
-			list = append(list, &st{s: cl, parent: i, snap: snapU(i)})
+			list = append(list, &st{s: cl, parent: i, snap: snapU(i), snapCase: endsCase(list[i])})
 			pf.Add(jen.Id("ZZSEP"))
 			pf.Add(cl)
 			got, err := render(cl)
@@ -432,6 +474,7 @@ func check(c Case) error {
 			// Clone of the callback parameter inside Do: it is a clone of the statement Do was called on
 			var cl *jen.Statement
 			var cur, atClone []string
+			var atCloneCase bool
 			var rerr error
 			list[i].s.Do(func(s *jen.Statement) {
 				for k := 0; k < op.N; k++ {
@@ -439,6 +482,7 @@ func check(c Case) error {
 				}
 				cur, rerr = render(s)
 				atClone = snapU(i)
+				atCloneCase = endsCase(list[i])
 				cl = s.Clone()
 				for k := 0; k < op.N; k++ {
 					list[i].own = append(list[i].own, apply(s, "dot", 0)...)
@@ -448,7 +492,7 @@ func check(c Case) error {
 				return rerr
 			}
 			_ = cur
-			list = append(list, &st{s: cl, parent: i, snap: atClone})
+			list = append(list, &st{s: cl, parent: i, snap: atClone, snapCase: atCloneCase})
 			pf.Add(jen.Id("ZZSEP"))
 			pf.Add(cl)
 		case "clonechain":
@@ -459,6 +503,7 @@ func check(c Case) error {
 				cur = cur.Clone()
 				own = append(own, apply(cur, "dot", 0)...)
 			}
+			hasOwn[cur] = true
 			list = append(list, &st{s: cur, parent: i, snap: at, own: own})
 			pf.Add(jen.Id("ZZSEP"))
 			pf.Add(cur)
@@ -472,6 +517,7 @@ func check(c Case) error {
 			} else {
 				list[i].s.Op("+").Add(list[j].s)
 				endsInCase[list[i].s] = false
+				hasOwn[list[i].s] = true
 				list[i].own = append(list[i].own, "+", fmt.Sprintf("\x00%d", j))
 			}
 		case "groupadd":
@@ -507,7 +553,7 @@ func check(c Case) error {
 			var toks []string
 			for _, tgt := range []int{i, j} {
 				s := list[tgt].s
-				inCase := endsInCase[s]
+				open, close := braces(s)
 				switch op.Via {
 				case "call":
 					s.Call(items...)
@@ -520,15 +566,13 @@ func check(c Case) error {
 					toks = []string{a, ",", b, ",", d}
 				case "block":
 					s.Block(items...)
-					toks = []string{"{", a, b, d, "}"}
-					if inCase {
-						toks = []string{a, b, d}
-					}
+					toks = append(append(append([]string{}, open...), a, b, d), close...)
 				default:
 					s.Add(items...)
 					toks = []string{a, b, d}
 				}
 				endsInCase[s] = false
+				hasOwn[s] = true
 				list[tgt].own = append(list[tgt].own, toks...)
 			}
 		case "append":
